@@ -79,6 +79,8 @@ structure LexSt (α : Type) where
   /-- `depths_of_additional_parens`: paren depths at which one more `)` is owed (top = last). -/
   owed : List Int := []
   depth : Int := 0
+  /-- `unmatched_closing_paren`: a `)` without matching `(` has been seen -/
+  dipped : Bool := false
 deriving Repr
 
 /-- What happens at a token start; `rest` is the text from this position on (non-empty, and its
@@ -94,11 +96,14 @@ def lexStep {α} (I : Interp α) (t : Table) (lm : Str → Option Nat)
       .ok (1, { st with res := st.res ++ [.popen], depth := st.depth + 1 })
     else if c == ')' then
       let d := st.depth - 1
+      let dip := st.dipped || decide (d < 0)
       if st.owed.getLast? == some d then
-        .ok (1, { res := st.res ++ [.pclose, .pclose], owed := st.owed.dropLast, depth := d })
+        .ok (1, { res := st.res ++ [.pclose, .pclose], owed := st.owed.dropLast, depth := d, dipped := dip })
       else
-        .ok (1, { st with res := st.res ++ [.pclose], depth := d })
+        .ok (1, { st with res := st.res ++ [.pclose], depth := d, dipped := dip })
     else if c == ',' then
+      -- the rewrite must not repair a paren mismatch to the left of the comma
+      if st.dipped then .error (.err "comma_after_unmatched_paren") else
       match findOpOfComma st.res with
       | none => .error (.err "comma")
       | some i =>
@@ -108,7 +113,7 @@ def lexStep {α} (I : Interp α) (t : Table) (lm : Str → Option Nat)
           -- a second comma inside the same pair of parentheses is rejected
           if st.owed.getLast? == some (st.depth - 1) then .error (.err "second_comma") else
           .ok (1, { res := st.res.set i .popen ++ [.pclose, opTok, .popen],
-                    owed := st.owed ++ [st.depth - 1], depth := st.depth })
+                    owed := st.owed ++ [st.depth - 1], depth := st.depth, dipped := st.dipped })
     else if c == '{' then
       let k := (rest.takeWhile (· != '}')).length
       let name := (rest.take k).drop 1
